@@ -17,6 +17,24 @@ TECHNIQUE = "TLA+ model checking (TLC) + spec-generated server behaviours replay
 DESIGN_REF = "DESIGN.md section 5, C10"
 
 
+def reproduced(ctx, bad):
+    """runs the combination of a rejected probe alone, twice; True iff HttpProbeTrace rejects its outcome (same scheme) both times"""
+    binary = ctx.go_build_test("./pkg/scan/" + bad["probe"])
+    for k in range(2):
+        sp = os.path.join(ctx.scratch, "c10-confirm-scen.ndjson")
+        op = os.path.join(ctx.scratch, "c10-confirm-out-%d.ndjson" % k)
+        vf.write_ndjson(sp, [{"probe": bad["probe"], "ping": bad["ping"], "r1": bad["r1"], "r2": bad["r2"]}])
+        rc, out = ctx.go_run_test(binary, "^TestVfProbe$", {"VF_SCENARIOS": sp, "VF_OUT": op}, 300)
+        if rc != 0:
+            return True
+        evs = [e for e in vf.read_ndjson(op) if e["proto"] == bad["proto"]]
+        vf.write_ndjson(op, evs)
+        ok, _ = ctx.tlc_trace("HttpProbeTrace", op, timeout=600)
+        if ok:
+            return False
+    return True
+
+
 def run(ctx):
     ctx.cov["rule"] = ("all (probe, ping, r1, r2) combinations of the model that a server can realise x {http, https}; distinct = combinations x scheme")
     ctx.tlc_mc("HttpProbe", "MC_HttpProbe", workers=4, timeout=600)
@@ -64,6 +82,12 @@ def run(ctx):
             break
         bad = rest[info["index"] - 1]
         key = "C10:%s:r1=%s:%s" % (bad["probe"], bad["r1"], bad["result"])
+        if key not in seen and not reproduced(ctx, bad):
+            # sequential code against a scripted server: not shown again by the same combination run alone (twice) = disturbance of the harness
+            ctx.notes.append("a rejected probe (%s ping=%s r1=%s r2=%s -> %s in %d ms) was not reproduced in two runs of the same combination alone" %
+                             (bad["probe"], bad["ping"], bad["r1"], bad["r2"], bad["result"], bad["durMs"]))
+            rest = rest[:info["index"] - 1] + rest[info["index"]:]
+            continue
         if key not in seen:
             seen.add(key)
             ctx.violation(key, "%s probe (%s) with ping=%s r1=%s r2=%s -> %s in %d ms, record host=%s proto=%s: not what HttpProbe allows" %
